@@ -178,6 +178,16 @@ pub fn gen_c09(tier: &str, rng: &mut Rng, w: &mut dyn Write) {
             }
         }
     }
+    // ASCII garbage spliced into / around every token kind (anchors, separators): one and two extra characters
+    for v in ["88-66", "AQs-A9s", "QQ+", "A9o+", "77", "JTs", "AsKd", "AQs-A9s:0.5", "QQ+:1"] {
+        for ins in ["x", "A", "s", "+", "-", ":", "0", ".", "Ks", "A-"] {
+            for pos in 0..=v.len() {
+                let t = format!("{}{}{}", &v[..pos], ins, &v[pos..]);
+                tok_line(w, "parse_token", t.as_bytes());
+                tok_line(w, "parse_range", t.as_bytes());
+            }
+        }
+    }
     // over-long input
     let big = if tier == "thorough" { 1_000_000 } else { 20_000 };
     let mut s = b"AA:0.".to_vec();
